@@ -340,6 +340,25 @@ func replayOnRealCode(eng *Engine, rf *ReplayFile, st *oblStatus, fr *FuncResult
 }
 
 func replayInstance(eng *Engine, rf *ReplayFile, o *Obligation, model map[string]string, candidate bool, fr *FuncResult) string {
+	dyn := map[string]bool{}
+	for try := 0; ; try++ {
+		st := replayInstance1(eng, rf, o, model, candidate, fr, dyn)
+		// the clause is compiled without type information: a selector that turns out to name another package's
+		// unexported field is recompiled to a reflective read
+		more := false
+		for _, m := range regexp.MustCompile(`cannot refer to unexported field (\w+)`).FindAllStringSubmatch(rf.Replay["go_test_output"], -1) {
+			if !dyn[m[1]] {
+				dyn[m[1]] = true
+				more = true
+			}
+		}
+		if !more || try >= 3 {
+			return st
+		}
+	}
+}
+
+func replayInstance1(eng *Engine, rf *ReplayFile, o *Obligation, model map[string]string, candidate bool, fr *FuncResult, dynFields map[string]bool) string {
 	if o == nil || model == nil {
 		return "not-attempted"
 	}
@@ -371,7 +390,7 @@ func replayInstance(eng *Engine, rf *ReplayFile, o *Obligation, model map[string
 	body.WriteString(build)
 	// clause
 	var check string
-	g := &dynCompiler{eng: eng, pkg: fn.Pkg.Pkg, pc: eng.db.Pkgs[pkgPath], subst: map[string]string{}, dynSub: map[string]bool{}, lets: fr.Contract.Lets}
+	g := &dynCompiler{eng: eng, pkg: fn.Pkg.Pkg, pc: eng.db.Pkgs[pkgPath], subst: map[string]string{}, dynSub: map[string]bool{}, lets: fr.Contract.Lets, dynFields: dynFields}
 	nres := fn.Signature.Results().Len()
 	var resNames []string
 	for i := 0; i < nres; i++ {
@@ -386,6 +405,28 @@ func replayInstance(eng *Engine, rf *ReplayFile, o *Obligation, model map[string
 	}
 	if fn.Signature.Recv() != nil && fr.Contract.RecvName != "" {
 		g.subst[fr.Contract.RecvName] = argNames[0]
+	}
+	g.varTypes = map[string]types.Type{}
+	inst := instantiatedParamTypes(eng, fn)
+	for i, p := range fn.Params {
+		pt := p.Type()
+		if hasTypeParam(pt) && inst != nil && i < len(inst) {
+			pt = inst[i]
+		}
+		g.varTypes[p.Name()] = pt
+		if i == 0 && fn.Signature.Recv() != nil && fr.Contract.RecvName != "" {
+			g.varTypes[fr.Contract.RecvName] = pt
+		}
+	}
+	for i := 0; i < nres; i++ {
+		rt := fn.Signature.Results().At(i).Type()
+		g.varTypes[fmt.Sprintf("result%d", i)] = rt
+		if n := fn.Signature.Results().At(i).Name(); n != "" && n != "_" {
+			g.varTypes[n] = rt
+		}
+		if nres == 1 {
+			g.varTypes["result"] = rt
+		}
 	}
 	for i, p := range fn.Params {
 		if p.Name() != argNames[i] {
@@ -415,7 +456,7 @@ func replayInstance(eng *Engine, rf *ReplayFile, o *Obligation, model map[string
 	// the constructed input must satisfy the function's precondition (objects the model describes only in part, and
 	// candidate models in particular, may not); a permitted panic (panics when) is not a violation either
 	for i, rq := range fr.Contract.Requires {
-		pg := &dynCompiler{eng: eng, pkg: fn.Pkg.Pkg, pc: eng.db.Pkgs[pkgPath], subst: g.subst, dynSub: g.dynSub, lets: fr.Contract.Lets}
+		pg := &dynCompiler{eng: eng, pkg: fn.Pkg.Pkg, pc: eng.db.Pkgs[pkgPath], subst: g.subst, dynSub: g.dynSub, lets: fr.Contract.Lets, dynFields: dynFields, varTypes: g.varTypes}
 		e := pg.expr(rq.Expr)
 		if pg.failed != "" || len(pg.olds) > 0 {
 			if candidate {
@@ -428,7 +469,7 @@ func replayInstance(eng *Engine, rf *ReplayFile, o *Obligation, model map[string
 	}
 	if strings.HasPrefix(kind, "safe:") {
 		for i, pw := range fr.Contract.PanicsWhen {
-			pg := &dynCompiler{eng: eng, pkg: fn.Pkg.Pkg, pc: eng.db.Pkgs[pkgPath], subst: g.subst, dynSub: g.dynSub, lets: fr.Contract.Lets}
+			pg := &dynCompiler{eng: eng, pkg: fn.Pkg.Pkg, pc: eng.db.Pkgs[pkgPath], subst: g.subst, dynSub: g.dynSub, lets: fr.Contract.Lets, dynFields: dynFields, varTypes: g.varTypes}
 			e := pg.expr(pw.Expr)
 			if pg.failed != "" || len(pg.olds) > 0 {
 				rf.Replay["reason"] = "the function may panic by contract and that condition cannot be evaluated (" + pg.failed + ")"
@@ -629,23 +670,31 @@ func buildReplayInputs(eng *Engine, fn *ssa.Function, o *Obligation, model map[s
 	}
 	var argNames []string
 	rootVar := map[string]string{}
-	for _, p := range fn.Params {
+	inst := instantiatedParamTypes(eng, fn)
+	for i, p := range fn.Params {
 		name := p.Name()
 		if name == "_" || name == "" {
 			name = fmt.Sprintf("arg%d", len(argNames))
 		}
 		argNames = append(argNames, name)
 		rootVar[p.Name()] = name
-		if hasTypeParam(p.Type()) {
-			return "", nil, "generic function (type parameters are not instantiated for replay)"
+		pt := p.Type()
+		if hasTypeParam(pt) {
+			if inst == nil || i >= len(inst) || hasTypeParam(inst[i]) {
+				return "", nil, "generic function: no instantiation of its receiver type found in the package"
+			}
+			pt = inst[i] // method of a generic type: replayed on an instantiation the package itself uses
 		}
-		collectImports(p.Type(), fn.Pkg.Pkg, imports)
-		fmt.Fprintf(body, "\tvar %s %s\n", name, types.TypeString(p.Type(), qual))
+		collectImports(pt, fn.Pkg.Pkg, imports)
+		fmt.Fprintf(body, "\tvar %s %s\n", name, types.TypeString(pt, qual))
 	}
 	fmt.Fprintf(body, "\tvb := newVerifBuilder()\n")
 	// interface-typed locations the verifier treats as effect-free (loggers) get a real default instead of nil
 	for _, d := range replayDefaults {
-		pp := eng.modPath + "/" + d.pkg
+		pp := d.pkg
+		if !d.std {
+			pp = eng.modPath + "/" + d.pkg
+		}
 		if eng.typesPkg(pp) == nil {
 			continue
 		}
@@ -664,7 +713,14 @@ func buildReplayInputs(eng *Engine, fn *ssa.Function, o *Obligation, model map[s
 		} else {
 			imports[pp] = true
 		}
-		fmt.Fprintf(body, "\tvb.Default(reflect.TypeOf((*%s%s)(nil)).Elem(), %s%s)\n", qn, d.iface, qn, d.value)
+		for _, im := range d.imports {
+			imports[im] = true
+		}
+		val := qn + d.value
+		if d.std {
+			val = d.value
+		}
+		fmt.Fprintf(body, "\tvb.Default(reflect.TypeOf((*%s%s)(nil)).Elem(), %s, %v)\n", qn, d.iface, val, d.always)
 	}
 	// string literals: model value -> text
 	lits := map[string]string{}
@@ -679,7 +735,7 @@ func buildReplayInputs(eng *Engine, fn *ssa.Function, o *Obligation, model map[s
 	chosen := map[string]string{} // interface location path -> chosen type id
 	splitRoot := func(path string) (string, string) {
 		for i := 0; i < len(path); i++ {
-			if path[i] == '.' || path[i] == '[' {
+			if path[i] == '.' || path[i] == '[' || path[i] == '{' {
 				return path[:i], path[i:]
 			}
 		}
@@ -701,8 +757,18 @@ func buildReplayInputs(eng *Engine, fn *ssa.Function, o *Obligation, model map[s
 		return true
 	}
 	n := 0
+	var absent []string // map entries the model says are not present: everything below them is skipped
 	for _, fv := range o.Fields {
-		if fv.Kind == "strlit" || fv.Kind == "map" || fv.Kind == "chan" {
+		if fv.Kind == "strlit" || fv.Kind == "chan" {
+			continue
+		}
+		skip := false
+		for _, a := range absent {
+			if strings.HasPrefix(fv.Path, a) && fv.Path != a {
+				skip = true
+			}
+		}
+		if skip {
 			continue
 		}
 		root, rest := splitRoot(fv.Path)
@@ -716,6 +782,22 @@ func buildReplayInputs(eng *Engine, fn *ssa.Function, o *Obligation, model map[s
 		}
 		n++
 		switch fv.Kind {
+		case "map":
+			if !isNilRefModel(mv) {
+				fmt.Fprintf(body, "\tvb.Map(&%s, %q)\n", rv, rest)
+			}
+		case "map-card":
+			if bn, ok := parseModelInt(mv); ok && bn.IsInt64() && bn.Int64() >= 0 && bn.Int64() <= 256 {
+				fmt.Fprintf(body, "\tvb.MapCard(&%s, %q, %d)\n", rv, rest, bn.Int64())
+			}
+		case "map-entry":
+			kv, ok := val(fv.Extra[0])
+			bn, ok2 := parseModelInt(kv)
+			if mv != "true" || !ok || !ok2 {
+				absent = append(absent, fv.Path)
+				continue
+			}
+			fmt.Fprintf(body, "\tvb.MapEntry(&%s, %q, %q)\n", rv, rest, bn.String())
 		case "scalar":
 			if mv == "true" || mv == "false" {
 				fmt.Fprintf(body, "\tvb.Bool(&%s, %q, %s)\n", rv, rest, mv)
@@ -789,7 +871,14 @@ func buildReplayInputs(eng *Engine, fn *ssa.Function, o *Obligation, model map[s
 				continue
 			}
 			ct := eng.typeByID(int(tag.Int64()))
-			if ct == nil {
+			if ct == nil || !types.AssignableTo(ct, fv.Ty) {
+				// non-nil in the model, dynamic type unknown to the engine: a registered stand-in, if there is one, else
+				// whatever an exported constructor of the interface's package returns
+				fmt.Fprintf(body, "\tvb.UseDefault(&%s, %q)\n", rv, rest)
+				if ctors := ctorCandidates(fn.Pkg.Pkg, fv.Ty, imports); len(ctors) > 0 {
+					key, _ := val(fv.Extra[0])
+					fmt.Fprintf(body, "\tvb.NewFrom(&%s, %q, %q, \"\", %s)\n", rv, rest, key, strings.Join(ctors, ", "))
+				}
 				continue
 			}
 			if pt, ok := ct.Underlying().(*types.Pointer); ok && structOf(pt.Elem()) != nil && exportedOrLocal(pt.Elem(), fn.Pkg.Pkg) && !hasTypeParam(pt.Elem()) {
@@ -827,8 +916,18 @@ func buildReplayInputs(eng *Engine, fn *ssa.Function, o *Obligation, model map[s
 }
 
 // replayDefaults: values given to nil interface fields of these types in replayed objects.
-var replayDefaults = []struct{ pkg, pkgName, iface, value string }{
-	{"internal/utils", "utils", "Logger", "DefaultLogger"},
+// always: also where the model says nothing about the field (the verifier treats the interface as effect-free);
+// otherwise only where the model's dynamic type tag says the interface is non-nil and names no type the engine knows.
+var replayDefaults = []struct {
+	pkg, pkgName, iface, value string
+	std, always                bool
+	imports                    []string
+}{
+	{pkg: "internal/utils", pkgName: "utils", iface: "Logger", value: "DefaultLogger", always: true},
+	{pkg: "crypto/cipher", pkgName: "cipher", iface: "AEAD", std: true,
+		value: "func() cipher.AEAD { b, _ := aes.NewCipher(make([]byte, 16)); a, _ := cipher.NewGCM(b); return a }()", imports: []string{"crypto/aes"}},
+	{pkg: "crypto/cipher", pkgName: "cipher", iface: "Block", std: true,
+		value: "func() cipher.Block { b, _ := aes.NewCipher(make([]byte, 16)); return b }()", imports: []string{"crypto/aes"}},
 }
 
 // ctorCandidates: Go closures calling exported package-level functions of ct's package (with zero arguments) whose first
@@ -841,8 +940,9 @@ func ctorCandidates(self *types.Package, ct types.Type, imports map[string]bool)
 	if n == nil || n.Obj().Pkg() == nil {
 		return nil
 	}
+	wantIface, _ := ct.Underlying().(*types.Interface)
 	tp := n.Obj().Pkg()
-	direct := false
+	direct := tp == self
 	for _, ip := range self.Imports() {
 		if ip == tp {
 			direct = true
@@ -857,7 +957,24 @@ func ctorCandidates(self *types.Package, ct types.Type, imports map[string]bool)
 		}
 		return p.Name()
 	}
+	ptrNew := false // pointer-to-struct parameters get a fresh zero object instead of nil
 	zero := func(t types.Type) (string, bool) {
+		if pt, ok := t.Underlying().(*types.Pointer); ok && ptrNew {
+			if nn := namedOf(pt.Elem()); nn != nil && structOf(pt.Elem()) != nil && (nn.Obj().Exported() || nn.Obj().Pkg() == self) && !hasTypeParam(pt.Elem()) && nn.Obj().Pkg() != nil {
+				ok := nn.Obj().Pkg() == self
+				for _, ip := range self.Imports() {
+					if ip == nn.Obj().Pkg() {
+						ok = true
+					}
+				}
+				if ok {
+					if nn.Obj().Pkg() != self {
+						imports[nn.Obj().Pkg().Path()] = true
+					}
+					return "new(" + types.TypeString(pt.Elem(), qual) + ")", true
+				}
+			}
+		}
 		switch u := t.Underlying().(type) {
 		case *types.Basic:
 			switch {
@@ -896,7 +1013,7 @@ func ctorCandidates(self *types.Package, ct types.Type, imports map[string]bool)
 	var callOf func(name string, nest bool) (string, *types.Signature, bool)
 	callOf = func(name string, nest bool) (string, *types.Signature, bool) {
 		f, ok := tp.Scope().Lookup(name).(*types.Func)
-		if !ok || !f.Exported() {
+		if !ok || (!f.Exported() && tp != self) || strings.HasPrefix(name, "Test") || strings.HasPrefix(name, "Benchmark") || strings.HasPrefix(name, "Fuzz") {
 			return "", nil, false
 		}
 		sig := f.Type().(*types.Signature)
@@ -918,6 +1035,27 @@ func ctorCandidates(self *types.Package, ct types.Type, imports map[string]bool)
 							break
 						}
 					}
+					if found == "" {
+						// an exported struct type of that package whose zero value implements the interface
+						for _, n2 := range names {
+							tn, ok := tp.Scope().Lookup(n2).(*types.TypeName)
+							if !ok || !tn.Exported() || structOf(tn.Type()) == nil || hasTypeParam(tn.Type()) {
+								continue
+							}
+							q := tp.Name() + "."
+							if tp == self {
+								q = ""
+							}
+							if types.Implements(tn.Type(), pit) {
+								found = q + n2 + "{}"
+								break
+							}
+							if types.Implements(types.NewPointer(tn.Type()), pit) {
+								found = "&" + q + n2 + "{}"
+								break
+							}
+						}
+					}
 					if found != "" {
 						args = append(args, found)
 						continue
@@ -930,9 +1068,14 @@ func ctorCandidates(self *types.Package, ct types.Type, imports map[string]bool)
 			}
 			args = append(args, z)
 		}
+		if tp == self {
+			return fmt.Sprintf("%s(%s)", name, strings.Join(args, ", ")), sig, true
+		}
 		return fmt.Sprintf("%s.%s(%s)", tp.Name(), name, strings.Join(args, ", ")), sig, true
 	}
-	for _, nest := range []bool{false, true} {
+	for variant := 0; variant < 3; variant++ {
+		nest := variant >= 1
+		ptrNew = variant >= 2
 		for _, name := range names {
 			call, sig, ok := callOf(name, nest)
 			if !ok {
@@ -940,7 +1083,11 @@ func ctorCandidates(self *types.Package, ct types.Type, imports map[string]bool)
 			}
 			rt := sig.Results().At(0).Type()
 			okRes := types.Identical(rt, ct)
-			if it, isI := rt.Underlying().(*types.Interface); isI && !okRes {
+			if wantIface != nil {
+				// any concrete pointer type that implements the wanted interface
+				_, isPtr := rt.Underlying().(*types.Pointer)
+				okRes = isPtr && wantIface.NumMethods() > 0 && types.Implements(rt, wantIface)
+			} else if it, isI := rt.Underlying().(*types.Interface); isI && !okRes {
 				okRes = types.Implements(ct, it) && it.NumMethods() > 0
 			}
 			if !okRes {
@@ -950,7 +1097,9 @@ func ctorCandidates(self *types.Package, ct types.Type, imports map[string]bool)
 			for i := 1; i < sig.Results().Len(); i++ {
 				lhs += ", _"
 			}
-			imports[tp.Path()] = true
+			if tp != self {
+				imports[tp.Path()] = true
+			}
 			c := fmt.Sprintf("func() any { %s := %s; return r }", lhs, call)
 			dup := false
 			for _, o := range out {
@@ -965,6 +1114,57 @@ func ctorCandidates(self *types.Package, ct types.Type, imports map[string]bool)
 				return out
 			}
 		}
+	}
+	return out
+}
+
+// instantiatedParamTypes: for a method of a generic named type, the parameter types (receiver first) under the first
+// instantiation of that type found in the package's own source.
+func instantiatedParamTypes(eng *Engine, fn *ssa.Function) []types.Type {
+	recv := fn.Signature.Recv()
+	if recv == nil {
+		return nil
+	}
+	rt := recv.Type()
+	isPtr := false
+	if pt, ok := rt.(*types.Pointer); ok {
+		rt, isPtr = pt.Elem(), true
+	}
+	named, ok := types.Unalias(rt).(*types.Named)
+	if !ok || named.Origin().TypeParams() == nil {
+		return nil
+	}
+	origin := named.Origin()
+	pkg := eng.allPkgs[fn.Pkg.Pkg.Path()]
+	if pkg == nil || pkg.TypesInfo == nil {
+		return nil
+	}
+	var best *types.Named
+	for _, in := range pkg.TypesInfo.Instances {
+		n, ok := types.Unalias(in.Type).(*types.Named)
+		if !ok || n.Origin() != origin || hasTypeParam(n) {
+			continue
+		}
+		if best == nil || types.TypeString(n, nil) < types.TypeString(best, nil) {
+			best = n // deterministic choice
+		}
+	}
+	if best == nil {
+		return nil
+	}
+	var rcv types.Type = best
+	if isPtr {
+		rcv = types.NewPointer(best)
+	}
+	obj, _, _ := types.LookupFieldOrMethod(rcv, true, fn.Pkg.Pkg, fn.Name())
+	m, ok := obj.(*types.Func)
+	if !ok {
+		return nil
+	}
+	sig := m.Type().(*types.Signature)
+	out := []types.Type{rcv}
+	for i := 0; i < sig.Params().Len(); i++ {
+		out = append(out, sig.Params().At(i).Type())
 	}
 	return out
 }
@@ -1005,21 +1205,38 @@ func hasTypeParam(t types.Type) bool {
 }
 
 const builderHelpers = `
+type verifMapEntry struct {
+	m, key, val reflect.Value
+}
+
 type verifBuilder struct {
+	staged   map[string]*verifMapEntry // "<root addr>|<path>{j}" -> entry under construction
+	order    []*verifMapEntry
+	cards    []verifMapEntry // m, and val = the wanted cardinality
 	objs     map[string]reflect.Value
 	arrays   map[string]reflect.Value
 	defaults map[reflect.Type]reflect.Value
+	always   map[reflect.Type]bool
 	notes    []string
 }
 
-func (b *verifBuilder) Default(t reflect.Type, v any) {
+func (b *verifBuilder) Default(t reflect.Type, v any, always bool) {
 	if v != nil {
 		b.defaults[t] = reflect.ValueOf(v)
+		b.always[t] = always
+	}
+}
+
+func (b *verifBuilder) UseDefault(root any, path string) {
+	if v, ok := b.at(root, path); ok && v.Kind() == reflect.Interface && v.IsNil() {
+		if dv, ok := b.defaults[v.Type()]; ok {
+			v.Set(dv)
+		}
 	}
 }
 
 func newVerifBuilder() *verifBuilder {
-	return &verifBuilder{objs: map[string]reflect.Value{}, arrays: map[string]reflect.Value{}, defaults: map[reflect.Type]reflect.Value{}}
+	return &verifBuilder{staged: map[string]*verifMapEntry{}, objs: map[string]reflect.Value{}, arrays: map[string]reflect.Value{}, defaults: map[reflect.Type]reflect.Value{}, always: map[reflect.Type]bool{}}
 }
 
 func verifSettable(v reflect.Value) reflect.Value {
@@ -1080,6 +1297,14 @@ func (b *verifBuilder) at(root any, path string) (cur reflect.Value, ok bool) {
 			}
 			cur = verifSettable(f)
 			i = k
+		case '{':
+			k := strings.IndexByte(path[i:], '}')
+			e, ok := b.staged[fmt.Sprintf("%p|%s", root, path[:i+k+1])]
+			if !ok {
+				return cur, false
+			}
+			cur = e.val
+			i += k + 1
 		case '[':
 			k := strings.IndexByte(path[i:], ']')
 			n, _ := strconv.Atoi(path[i+1 : i+k])
@@ -1117,6 +1342,67 @@ func (b *verifBuilder) Int(root any, path, val string) {
 	case reflect.Bool:
 		v.SetBool(n.Sign() != 0)
 	}
+}
+
+func (b *verifBuilder) Map(root any, path string) {
+	if v, ok := b.at(root, path); ok && v.Kind() == reflect.Map && v.IsNil() {
+		v.Set(reflect.MakeMap(v.Type()))
+	}
+}
+
+func (b *verifBuilder) MapCard(root any, path string, n int) {
+	if v, ok := b.at(root, path); ok && v.Kind() == reflect.Map && !v.IsNil() {
+		b.cards = append(b.cards, verifMapEntry{m: v, val: reflect.ValueOf(n)})
+	}
+}
+
+// MapEntry stages the entry path = "<map path>{j}" with the given key; the value is filled through further paths and
+// stored into the map by Fill.
+func (b *verifBuilder) MapEntry(root any, path, key string) {
+	i := strings.LastIndexByte(path, '{')
+	m, ok := b.at(root, path[:i])
+	if !ok || m.Kind() != reflect.Map {
+		return
+	}
+	if m.IsNil() {
+		m.Set(reflect.MakeMap(m.Type()))
+	}
+	kv := reflect.New(m.Type().Key()).Elem()
+	n, _ := new(big.Int).SetString(key, 10)
+	switch kv.Kind() {
+	case reflect.Int, reflect.Int8, reflect.Int16, reflect.Int32, reflect.Int64:
+		kv.SetInt(n.Int64())
+	case reflect.Uint, reflect.Uint8, reflect.Uint16, reflect.Uint32, reflect.Uint64, reflect.Uintptr:
+		kv.SetUint(n.Uint64())
+	default:
+		return
+	}
+	e := &verifMapEntry{m: m, key: kv, val: reflect.New(m.Type().Elem()).Elem()}
+	b.staged[fmt.Sprintf("%p|%s", root, path)] = e
+	b.order = append(b.order, e)
+}
+
+func (b *verifBuilder) commitMaps() {
+	for _, e := range b.order {
+		e.m.SetMapIndex(e.key, e.val)
+	}
+	// the model's cardinality: other keys the VCs never ask about are present too
+	for _, e := range b.cards {
+		want := int(e.val.Int())
+		for next := int64(1 << 40); e.m.Len() < want; next++ {
+			kv := reflect.New(e.m.Type().Key()).Elem()
+			switch kv.Kind() {
+			case reflect.Int, reflect.Int64:
+				kv.SetInt(next)
+			case reflect.Uint, reflect.Uint64:
+				kv.SetUint(uint64(next))
+			default:
+				return
+			}
+			e.m.SetMapIndex(kv, reflect.Zero(e.m.Type().Elem()))
+		}
+	}
+	b.order = nil
 }
 
 func (b *verifBuilder) Bool(root any, path string, val bool) {
@@ -1164,6 +1450,9 @@ func (b *verifBuilder) NewAs(root any, path, key string, typ reflect.Type) {
 // NewFrom: the interface location gets a zeroed object of the (unnameable) concrete type want, whose reflect.Type is
 // taken from whichever constructor returns a value of that type.
 func (b *verifBuilder) NewFrom(root any, path, key, want string, ctors ...func() any) {
+	if v, ok := b.at(root, path); ok && v.Kind() == reflect.Interface && !v.IsNil() {
+		return // already given a value (default stand-in)
+	}
 	for _, c := range ctors {
 		var typ reflect.Type
 		func() {
@@ -1172,7 +1461,7 @@ func (b *verifBuilder) NewFrom(root any, path, key, want string, ctors ...func()
 				typ = reflect.TypeOf(x)
 			}
 		}()
-		if typ != nil && typ.String() == want && typ.Kind() == reflect.Ptr {
+		if typ != nil && (typ.String() == want || want == "") && typ.Kind() == reflect.Ptr {
 			b.NewAs(root, path, key, typ)
 			return
 		}
@@ -1209,8 +1498,9 @@ func (b *verifBuilder) Slice(root any, path, arr string, off, n, cp int) {
 }
 
 // Fill gives every nil map and channel in the constructed objects an empty value (the verifier's maps and channels are
-// total: reading and writing them never panics).
+// total: reading and writing them never panics), nil loggers the default logger, and nil callbacks a no-op.
 func (b *verifBuilder) Fill(roots ...any) {
+	b.commitMaps()
 	seen := map[uintptr]bool{}
 	var walk func(v reflect.Value, d int)
 	walk = func(v reflect.Value, d int) {
@@ -1226,7 +1516,7 @@ func (b *verifBuilder) Fill(roots ...any) {
 			walk(v.Elem(), d+1)
 		case reflect.Interface:
 			if v.IsNil() {
-				if dv, ok := b.defaults[v.Type()]; ok && v.CanSet() {
+				if dv, ok := b.defaults[v.Type()]; ok && v.CanSet() && b.always[v.Type()] {
 					v.Set(dv)
 				}
 				return
@@ -1247,6 +1537,18 @@ func (b *verifBuilder) Fill(roots ...any) {
 		case reflect.Chan:
 			if v.IsNil() && v.CanSet() && v.Type().ChanDir() == reflect.BothDir {
 				v.Set(reflect.MakeChan(v.Type(), 4))
+			}
+		case reflect.Func:
+			// function-valued fields (callbacks): the verifier assumes calling them changes nothing it models
+			if v.IsNil() && v.CanSet() && d > 0 {
+				ft := v.Type()
+				v.Set(reflect.MakeFunc(ft, func([]reflect.Value) []reflect.Value {
+					out := make([]reflect.Value, ft.NumOut())
+					for i := range out {
+						out[i] = reflect.Zero(ft.Out(i))
+					}
+					return out
+				}))
 			}
 		}
 	}
